@@ -1,8 +1,9 @@
 #!/bin/sh
 # usage: confirm_seed.sh <outdir> : run demo.py with and without patch.diff in the scratch worktree /tmp/wt_confirm
 d=$1
+export STABILIZE_SRC=/tmp/wt_confirm/src STABILIZE_ROOT=/tmp/wt_confirm
 cd /tmp/wt_confirm && git checkout -q -- . && git apply $d/patch.diff || exit 9
-PYTHONPATH=/tmp/wt_confirm/src:/tmp/wt_confirm timeout 600 /venv/bin/python $d/demo.py >/tmp/demo_with.log 2>&1; a=$?
+PYTHONPATH=/tmp/wt_confirm/src:/tmp/wt_confirm timeout 1200 /venv/bin/python $d/demo.py >/tmp/demo_with.log 2>&1; a=$?
 git checkout -q -- .
-PYTHONPATH=/tmp/wt_confirm/src:/tmp/wt_confirm timeout 600 /venv/bin/python $d/demo.py >/tmp/demo_without.log 2>&1; b=$?
+PYTHONPATH=/tmp/wt_confirm/src:/tmp/wt_confirm timeout 1200 /venv/bin/python $d/demo.py >/tmp/demo_without.log 2>&1; b=$?
 echo "$d with_change_exit=$a without_change_exit=$b"
